@@ -393,6 +393,9 @@ class Renderer:
             if not t[2]:
                 if t[1] == "tuple":
                     return f"{name}[()]" if self.uid % 3 else name
+                if t[1] == "list" and self.uid % 2:
+                    # another bare mutable sequence class (collections.abc.MutableSequence like list): same verdicts
+                    return "bytearray"
                 return name
             return f"{name}[{', '.join(self.expr(m, quoted_ctx) for m in t[2])}]"
         raise ValueError(t)
